@@ -10,7 +10,15 @@
    (d) thread exit / join.  A critical section runs atomically (it contains no other shared
    access; the unsynchronised cmpstate readers see the state before or after it), cv.wait
    releases the mutex and sleeps atomically, notify_all is issued inside the same critical
-   section as the state change.  No spurious wake-ups (assumption, see DESIGN).
+   section as the state change.
+
+   Spurious wake-ups (the C++ standard allows cv.wait to return without a notification) are schedulable
+   actions of their own: for a state with T buffers the pseudo thread id T + 1 + j (j = 0: the I/O
+   thread, j = i + 1: worker i) means "thread j, sleeping in cv.wait, wakes up without having been
+   notified".  It is enabled iff that thread is asleep, it makes the thread Awake and changes nothing
+   else; the thread then re-tests its predicate like after a notification (w_wait / i_wait with
+   woke = true) and goes back to sleep if it does not hold.  [step] on the ids 0..T is the step of the
+   real threads ([step_real]); [enabled] / [enabled_count] speak about the real threads only.
 
    The block transformation (the cipher stream object of worker i) is a section parameter. *)
 From Wencry Require Import Bytes FileModel.
@@ -30,7 +38,7 @@ Inductive wpc :=
 | W_SetUpdate                  (* set_update(): lock *)
 | W_WaitReady                  (* wait_ready(): lock *)
 | W_Asleep (from_start : bool) (* in cv_ready.wait *)
-| W_Awake (from_start : bool)  (* notified, has to re-acquire and re-test *)
+| W_Awake (from_start : bool)  (* notified or woken spuriously, has to re-acquire and re-test *)
 | W_Cmp                        (* cmpstate(READY) and second get_entry() *)
 | W_Done.                      (* returned NULL, thread function returned *)
 (* I/O thread program counter *)
@@ -246,19 +254,34 @@ Definition step_io (s : state) : option (state * list event) :=
   end.
 
 (* thread ids as in the harness: 0 = I/O (main) thread, i+1 = worker i *)
-Definition step (s : state) (tid : nat) : option (state * list event) :=
+Definition step_real (s : state) (tid : nat) : option (state * list event) :=
   match tid with
   | O => step_io s
   | Datatypes.S i => if i <? nT s then step_worker s i else None
   end.
+(* thread j (0 = I/O thread, i+1 = worker i) returns from cv.wait without a notification *)
+Definition spurious (s : state) (j : nat) : option (state * list event) :=
+  match j with
+  | O => match io s with I_Asleep => Some (set_io s I_Awake, []) | _ => None end
+  | Datatypes.S i =>
+      if i <? nT s then
+        match getw s i with W_Asleep f => Some (set_wpc s i (W_Awake f), []) | _ => None end
+      else None
+  end.
+(* ids 0..T: the real threads; id T+1+j: spurious wake-up of thread j *)
+Definition step (s : state) (tid : nat) : option (state * list event) :=
+  if tid <=? nT s then step_real s tid else spurious s (tid - nT s - 1).
+(* a REAL thread can take a step (a pending spurious wake-up does not count as progress) *)
 Definition enabled (s : state) (tid : nat) : bool :=
-  match step s tid with Some _ => true | None => false end.
+  match step_real s tid with Some _ => true | None => false end.
 Definition enabled_count (s : state) : nat :=
   length (filter (enabled s) (seq 0 (Datatypes.S (nT s)))).
+Definition spurious_enabled (s : state) (j : nat) : bool :=
+  match spurious s j with Some _ => true | None => false end.
 Definition terminal (s : state) : bool :=
   match io s with I_Done => forallb (fun p => match p with W_Done => true | _ => false end) (wpcs s) | _ => false end.
 
-(* a schedule is the list of thread ids chosen at the successive scheduling points *)
+(* a schedule is the list of thread ids chosen at the successive scheduling points (ids above T: spurious wake-ups) *)
 Fixpoint run (s : state) (sched : list nat) : option state :=
   match sched with
   | [] => Some s
